@@ -97,6 +97,15 @@ Theorem C07_result_type_forms : forall a r,
 Proof. exact binary_result_dtype_forms. Qed.
 Print Assumptions C07_result_type_forms.
 
+(* finding (repaired by fixes/C07_scalar_operand_value.diff): maximum / minimum / power / where converted a scalar operand of
+   another element type to the array's element type before the operation *)
+Theorem C07_scalar_operand_as_array_type_refuted :
+  exists (arr scal : dtype) (x k : Z),
+    int_cast (binary_result_dtype CastDefault Arith arr scal) (Z.max x k)
+    <> int_cast (binary_result_dtype CastDefault Arith arr scal) (Z.max x (int_cast arr k)).
+Proof. exact scalar_operand_as_array_type_refuted. Qed.
+Print Assumptions C07_scalar_operand_as_array_type_refuted.
+
 (* ---------- non-vacuity ---------- *)
 Definition iota7 (s : list Z) : operand Z := (s, fun i => horner 0 i s).
 Example C07_nonvacuous_binary :
